@@ -597,6 +597,17 @@ func (p *Program) findSpec(pkg, name string) *SpecFunc {
 
 func (e *Env) callSpec(sf *SpecFunc, args []Bound) (Bound, error) {
 	vc := e.vc
+	if sf.Body != nil && !sf.Rec {
+		// non-recursive specs are macros: the body is evaluated in the caller's state, so it may read the heap
+		if len(args) != len(sf.Params) {
+			return Bound{}, fmt.Errorf("spec %s: %d arguments, want %d", sf.Name, len(args), len(sf.Params))
+		}
+		n := e.child()
+		for i, p := range sf.Params {
+			n.vars[p.Name] = args[i]
+		}
+		return n.eval(sf.Body)
+	}
 	rs, rt, err := e.sortOfTypeName(sf.Ret)
 	if err != nil {
 		return Bound{}, fmt.Errorf("spec %s: %v", sf.Name, err)
